@@ -1,14 +1,19 @@
 package main
 
 // C12 — validation modes change the report, never the verdict; errors point at data.
-// Real code exercised: (*Schema).VisitJSON with no option, FailFast(), MultiErrors(), a message customizer, and
-// IsMatching; every returned *SchemaError is inspected (SchemaField, JSONPointer(), Value, Reason).
+// Real code exercised: (*Schema).VisitJSON with no option, FailFast(), MultiErrors(), FailFast()+MultiErrors(), a message
+// customizer (+EnableFormatValidation, an option that has no effect on value validation), IsMatching and the typed
+// IsMatchingJSON* helpers; under the request/response readings and with DefaultsSet (default injection: the value is
+// mutated, each mode runs on its own deep copy and the value AFTER validation is observed). Every returned *SchemaError
+// is inspected (SchemaField, JSONPointer(), Value, Reason) and located in the value as the caller finds it afterwards.
 // The same observation (with reason texts) serves C19.
 
 import (
 	"encoding/json"
 	"fmt"
+	"math"
 	"math/big"
+	"reflect"
 	"strconv"
 
 	"github.com/getkin/kin-openapi/openapi3"
@@ -19,19 +24,46 @@ import (
 func init() {
 	hx.Register(&hx.Prop{
 		ID: "C12",
-		Rule: "the schema × value space of C01 (exhaustive over keyword atoms and compositions, plus the seeded random stream), each case validated in five ways " +
-			"(default, FailFast, MultiErrors, message customizer, IsMatching); every *SchemaError returned directly or inside the MultiError is compared with the model's " +
-			"(SchemaField, JSON pointer, quoted value, order) and its pointer is resolved in the input value. Non-trivial = the schema has at least one keyword.",
+		Rule: "the schema × value space of C01 (exhaustive over keyword atoms and compositions, string-length and discriminator families, plus the seeded random stream) and the default-injection family " +
+			"(12 object schemas with property defaults — valid, schema-violating, container, nested, read/write-only — alone, under not/items/additionalProperties/properties and in pairs under allOf/anyOf/oneOf, × 19 values); each case validated in seven ways " +
+			"(default, FailFast, MultiErrors, FailFast+MultiErrors, message customizer, IsMatching, typed IsMatchingJSON*); a schema with `default` also with DefaultsSet as request / response / plain (value after validation compared per mode); " +
+			"every *SchemaError returned directly or inside the MultiError is compared with the model's (SchemaField, JSON pointer, quoted value, order) and its pointer is resolved in the value after validation. " +
+			"A family of Go values outside JSON (NaN, ±Inf at depth 0–2) is compared mode against mode only. Non-trivial = the schema has at least one keyword.",
 		Exhaustive: true,
-		Gen:        genC01,
+		Gen:        genC12,
 		Run:        runC12,
 		Compare:    cmpC12,
 		Shrink:     shrinkSchemaCase,
 		Assumptions: []string{
 			"as C01 (exact-range numbers, regex/format oracle bits, resolved schema trees)",
 			"errors kept only as Origin of a composition error are not compared (they are not returned directly nor as members of the multi-error)",
+			"FailFast+MultiErrors: only the verdict and the value afterwards are modelled (the MultiError mixes errSchema sentinels with soft errors); its SchemaError members are still located",
+			"NaN / ±Inf are not JSON values: no model, the five verdicts are compared with each other (the property's first sentence needs no oracle)",
 		},
 	})
+}
+
+func genC12(ctx *hx.Ctx, emit0 func(hx.Case)) {
+	emit := func(c hx.Case) { delete(c, "pre"); emit0(c) } // the regex-compiler history is observed by C01
+	// Go values outside the JSON range that real callers produce (a query parameter `NaN` parses to float64 NaN)
+	nan := map[string]any{"$float": "NaN"}
+	for _, f := range []any{nan, map[string]any{"$float": "+Inf"}, map[string]any{"$float": "-Inf"}} {
+		vals := []any{f, []any{f}, []any{1, f}, map[string]any{"a": f}, []any{[]any{f}}, map[string]any{"a": []any{f, "x"}}}
+		schemas := []map[string]any{
+			{}, {"type": "number"}, {"items": map[string]any{}}, {"items": map[string]any{"type": "number"}}, {"type": "array", "items": map[string]any{"minimum": 0}},
+			{"properties": map[string]any{"a": map[string]any{}}}, {"additionalProperties": map[string]any{"type": "number"}}, {"not": map[string]any{"type": "string"}},
+			{"not": map[string]any{"items": map[string]any{}}}, {"anyOf": []any{map[string]any{"items": map[string]any{}}, map[string]any{"type": "array"}}},
+			{"oneOf": []any{map[string]any{"items": map[string]any{}}, map[string]any{"type": "object"}}}, {"allOf": []any{map[string]any{"items": map[string]any{"type": "number"}}}},
+			{"items": map[string]any{"items": map[string]any{}}}, {"type": "array", "uniqueItems": true, "items": map[string]any{}}, {"enum": []any{1}}, {"minItems": 3, "items": map[string]any{}},
+			{"properties": map[string]any{"a": map[string]any{"items": map[string]any{"type": "string"}}}},
+		}
+		for _, s := range schemas {
+			for _, v := range vals {
+				emit(hx.Case{"schema": s, "value": v, "nonjson": true})
+			}
+		}
+	}
+	genSchemaCases(ctx, emit, true, 2)
 }
 
 func canonValue(v any) any {
@@ -40,7 +72,7 @@ func canonValue(v any) any {
 		return nil
 	case float64:
 		r := new(big.Rat)
-		if r.SetFloat64(x) == nil {
+		if math.IsNaN(x) || math.IsInf(x, 0) || r.SetFloat64(x) == nil {
 			return map[string]any{"$num": "nan"}
 		}
 		return map[string]any{"$num": r.Num().String() + "/" + r.Denom().String()}
@@ -65,6 +97,35 @@ func canonValue(v any) any {
 		return out
 	}
 	return v
+}
+
+// goValue: plainValue plus the non-JSON floats of the `nonjson` family ({"$float": "NaN" | "+Inf" | "-Inf"})
+func goValue(v any) any {
+	switch x := v.(type) {
+	case map[string]any:
+		if f, ok := x["$float"].(string); ok && len(x) == 1 {
+			switch f {
+			case "NaN":
+				return math.NaN()
+			case "+Inf":
+				return math.Inf(1)
+			default:
+				return math.Inf(-1)
+			}
+		}
+		out := make(map[string]any, len(x))
+		for k, e := range x {
+			out[k] = goValue(e)
+		}
+		return out
+	case []any:
+		out := make([]any, len(x))
+		for i, e := range x {
+			out[i] = goValue(e)
+		}
+		return out
+	}
+	return plainValue(v)
 }
 
 func resolvePointer(v any, ptr []string) (any, bool) {
@@ -100,17 +161,18 @@ func flattenErrs(err error, out *[]error) {
 	*out = append(*out, err)
 }
 
-// describeErr renders one returned error; `located` is the property's second sentence evaluated on this error.
+// describeErr renders one returned error; `located` is the property's second sentence evaluated on this error, in the
+// value as the caller finds it after validation.
 func describeErr(err error, input any) map[string]any {
 	se, ok := err.(*openapi3.SchemaError)
 	if !ok {
-		return map[string]any{"field": "<not a SchemaError>", "text": err.Error(), "located": true, "pointer": []string{}}
+		return map[string]any{"field": "<not a SchemaError>", "located": true}
 	}
 	ptr := se.JSONPointer()
 	if ptr == nil {
 		ptr = []string{}
 	}
-	d := map[string]any{"field": se.SchemaField, "pointer": ptr, "reason": se.Reason}
+	d := map[string]any{"field": se.SchemaField, "pointer": ptr}
 	hasValue := se.Value != nil
 	if hasValue {
 		d["value"] = canonValue(se.Value)
@@ -127,16 +189,20 @@ func describeErr(err error, input any) map[string]any {
 	return d
 }
 
-func modeObs(err error, input any) map[string]any {
+func modeObs(err error, after any, withAfter bool) map[string]any {
 	errs := []any{}
 	if err != nil {
 		var flat []error
 		flattenErrs(err, &flat)
 		for _, e := range flat {
-			errs = append(errs, describeErr(e, input))
+			errs = append(errs, describeErr(e, after))
 		}
 	}
-	return map[string]any{"ok": err == nil, "errs": errs}
+	out := map[string]any{"ok": err == nil, "errs": errs}
+	if withAfter {
+		out["after"] = canonValue(after)
+	}
+	return out
 }
 
 func runC12(c hx.Case) any {
@@ -144,23 +210,38 @@ func runC12(c hx.Case) any {
 	if err != nil {
 		return map[string]any{"kind": "schema-unmarshal-error", "err": err.Error()}
 	}
-	v := plainValue(c["value"])
 	co := ctxOpts(c)
 	with := func(o ...openapi3.SchemaValidationOption) []openapi3.SchemaValidationOption {
 		return append(append([]openapi3.SchemaValidationOption{}, co...), o...)
 	}
-	custom := s.VisitJSON(v, with(openapi3.SetSchemaErrorMessageCustomizer(func(e *openapi3.SchemaError) string { return "custom" }))...)
+	pristine := goValue(c["value"])
+	unchanged := true
+	// every mode validates its own fresh copy of the value; with DefaultsSet under a request/response reading the copy is
+	// mutated and handed back, otherwise it must come back as it went in
+	inj := jbool(c, "dfl") && jstr(c, "ctx") != ""
+	run := func(o ...openapi3.SchemaValidationOption) map[string]any {
+		v := goValue(c["value"])
+		e := s.VisitJSON(v, with(o...)...)
+		if !inj && !jbool(c, "nonjson") && !reflect.DeepEqual(v, pristine) {
+			unchanged = false
+		}
+		return modeObs(e, v, inj)
+	}
 	out := map[string]any{
-		"dflt":     modeObs(s.VisitJSON(v, co...), v),
-		"multi":    modeObs(s.VisitJSON(v, with(openapi3.MultiErrors())...), v),
-		"failfast": s.VisitJSON(v, with(openapi3.FailFast())...) == nil,
-		"custom":   custom == nil,
+		"dflt":     run(),
+		"multi":    run(openapi3.MultiErrors()),
+		"failfast": run(openapi3.FailFast()),
+		"ffmulti":  run(openapi3.FailFast(), openapi3.MultiErrors()),
+		// options that only customise messages, or that do not concern value validation
+		"custom": run(openapi3.SetSchemaErrorMessageCustomizer(func(e *openapi3.SchemaError) string { return "custom" }), openapi3.EnableFormatValidation())["ok"],
 	}
-	if len(co) == 0 {
-		out["matching"] = s.IsMatching(v) // the helpers have no request/response reading
-	} else {
-		out["matching"] = out["failfast"]
+	if len(co) == 0 { // the helpers have no request/response reading and take no option
+		out["matching"] = s.IsMatching(goValue(c["value"]))
+		if t := typedMatching(s, goValue(c["value"])); t != nil {
+			out["typed"] = t
+		}
 	}
+	out["unchanged"] = unchanged
 	return out
 }
 
@@ -206,39 +287,75 @@ func cmpC12(c hx.Case, impl any, reply map[string]any) hx.Verdict {
 		return hx.Verdict{IM: false, IS: true, Detail: "generator produced a schema the library does not unmarshal"}
 	}
 	v := hx.Verdict{IM: true, IS: true}
-	sat := jbool(spec, "sat")
-	id, imu := im["dflt"].(map[string]any), im["multi"].(map[string]any)
-	verdicts := map[string]bool{"default": jbool(id, "ok"), "multi": jbool(imu, "ok"), "failfast": jbool(im, "failfast"),
-		"IsMatching": jbool(im, "matching"), "customizer": jbool(im, "custom")}
-	for name, ok := range verdicts {
-		if ok != sat {
-			v.IS = false
-			v.Detail = fmt.Sprintf("verdict in mode %s is %v, spec says %v (all modes: %v)", name, ok, sat, verdicts)
+	modes := []string{"dflt", "multi", "failfast", "ffmulti"}
+	obs := map[string]map[string]any{}
+	for _, m := range modes {
+		obs[m], _ = im[m].(map[string]any)
+	}
+	verdicts := map[string]bool{"default": jbool(obs["dflt"], "ok"), "multi": jbool(obs["multi"], "ok"), "failfast": jbool(obs["failfast"], "ok"),
+		"failfast+multi": jbool(obs["ffmulti"], "ok"), "customizer": jbool(im, "custom")}
+	for _, k := range []string{"matching", "typed"} {
+		if b, ok := im[k].(bool); ok {
+			verdicts["IsMatching/"+k] = b
 		}
 	}
-	for _, mode := range []string{"dflt", "multi"} {
-		mm, _ := im[mode].(map[string]any)
-		for _, e := range jlist(mm["errs"]) {
-			em, _ := e.(map[string]any)
-			if !jbool(em, "located") {
+	// first sentence: with a reference verdict (spec.sat) every path must give it; where the value is mutated by default
+	// injection, or is not a JSON value, the paths must agree with each other
+	if _, hasSat := spec["sat"]; hasSat && !jbool(c, "nonjson") {
+		sat := jbool(spec, "sat")
+		for name, ok := range verdicts {
+			if ok != sat {
 				v.IS = false
-				v.Detail = fmt.Sprintf("mode %s: error %v does not point at the value it quotes", mode, hx.Canon(em))
+				v.Detail = fmt.Sprintf("verdict in mode %s is %v, spec says %v (all modes: %v)", name, ok, sat, verdicts)
+			}
+		}
+	} else {
+		first := verdicts["default"]
+		for name, ok := range verdicts {
+			if ok != first {
+				v.IS = false
+				v.Detail = fmt.Sprintf("verdict in mode %s is %v, in default mode %v (all modes: %v)", name, ok, first, verdicts)
 			}
 		}
 	}
-	md, mmu := model["dflt"].(map[string]any), model["multi"].(map[string]any)
-	if jbool(id, "ok") != jbool(md, "ok") || jbool(imu, "ok") != jbool(mmu, "ok") || jbool(im, "failfast") != jbool(model, "failfast") {
+	// second sentence, in every mode that returns schema errors
+	for _, mode := range modes {
+		for _, e := range jlist(obs[mode]["errs"]) {
+			em, _ := e.(map[string]any)
+			if !jbool(em, "located") {
+				v.IS = false
+				v.Detail = fmt.Sprintf("mode %s: error %v does not point at the value it quotes (value after validation: %v)", mode, hx.Canon(em), hx.Canon(obs[mode]["after"]))
+			}
+		}
+	}
+	if !jbool(im, "unchanged") {
+		v.IS = false
+		v.Detail += " | the validated value was modified although no default injection was asked for"
+	}
+	if jbool(c, "nonjson") {
+		return v // outside the model
+	}
+	if jbool(model, "xbad") {
 		v.IM = false
-		v.Detail += " | verdicts differ from the model"
+		v.Detail += " | the two models (validate / validateD) disagree on this case"
 	}
 	ordered := jstr(c, "ctx") == "" // under a request/response reading the read-only errors come first in the code, last in the model
-	if !sameStrs(errKeys(id), errKeys(md), ordered) {
-		v.IM = false
-		v.Detail += fmt.Sprintf(" | default-mode error: impl %v model %v", errKeys(id), errKeys(md))
-	}
-	if !sameStrs(errKeys(imu), errKeys(mmu), ordered) {
-		v.IM = false
-		v.Detail += fmt.Sprintf(" | multi-mode errors: impl %v model %v", errKeys(imu), errKeys(mmu))
+	for _, mode := range modes {
+		mm, _ := model[mode].(map[string]any)
+		if jbool(obs[mode], "ok") != jbool(mm, "ok") {
+			v.IM = false
+			v.Detail += fmt.Sprintf(" | mode %s: verdict %v, model %v", mode, jbool(obs[mode], "ok"), jbool(mm, "ok"))
+		}
+		if after, has := mm["after"]; has && hx.Canon(after) != hx.Canon(obs[mode]["after"]) {
+			v.IM = false
+			v.Detail += fmt.Sprintf(" | mode %s: value after validation %v, model %v", mode, hx.Canon(obs[mode]["after"]), hx.Canon(after))
+		}
+		if mode == "dflt" || mode == "multi" {
+			if !sameStrs(errKeys(obs[mode]), errKeys(mm), ordered) {
+				v.IM = false
+				v.Detail += fmt.Sprintf(" | mode %s errors: impl %v model %v", mode, errKeys(obs[mode]), errKeys(mm))
+			}
+		}
 	}
 	return v
 }
